@@ -210,3 +210,23 @@ def mutant(fi, old, new, count=1):
     m.dropped = []
     m.body = m._clean(node.body, top=True)
     return m
+
+
+class patched_source(object):
+    """in-memory mutant of a whole module: Module.get(relpath) returns a Module parsed from the modified text while the
+    context is active (the repository is not touched).  The pattern must occur exactly once."""
+    def __init__(self, relpath, old, new): self.relpath, self.old, self.new = relpath, old, new
+    def __enter__(self):
+        path = os.path.join(REPO, self.relpath)
+        src = open(path).read()
+        if src.count(self.old) != 1: raise KeyError('mutant pattern %r occurs %d times in %s' % (self.old, src.count(self.old), self.relpath))
+        m = Module.__new__(Module)
+        m.relpath, m.path, m.source = self.relpath, path, src.replace(self.old, self.new)
+        m.tree = ast.parse(m.source); m.imports, m.funcs, m.classes, m.consts = {}, {}, {}, {}
+        m._scan()
+        self.saved = Module._cache.get((REPO, self.relpath))
+        Module._cache[(REPO, self.relpath)] = m
+        return m
+    def __exit__(self, *a):
+        if self.saved is None: Module._cache.pop((REPO, self.relpath), None)
+        else: Module._cache[(REPO, self.relpath)] = self.saved
